@@ -30,7 +30,9 @@ META = {
     "assumptions": ["Path.rglob('*') lists exactly the entries reachable without traversing a symbolic link; "
                     "is_file() and not is_symlink() holds exactly for regular files (tested on every generated tree)",
                     "patterns contain no comma (the CLI splits --path-include/--path-exclude at commas)",
-                    "the transformer pipeline writes only the file it was given (observed: outside tree hash, target snapshot)"],
+                    "the transformer pipeline writes only the file it was given (observed: outside tree hash, target snapshot)",
+                    "which of several writable manifests is updated depends on directory iteration order: the model only demands "
+                    "that at most one candidate is written, and exactly one when a source was rewritten and all candidates are regular files"],
 }
 
 IMPORTS = "From CM Require Import Harness.RunBase Harness.C05_run Model.Glob.\n"
@@ -112,8 +114,24 @@ def instantiate(rng, pat):
 
 
 DIR_POOL = ["sub", "sub/deep", "tests", "test", "build", "dist", "venv", ".git", "lib/site-packages", "pkg/__tests__", "src",
-            "src/tests", ".venv", "a[1]"]
-NAME_POOL = ["a.py", "b.py", "conftest.py", "m.txt", "x[1].py", ".coveragerc", "n.pyi", "c.PY", "d.py", ".py", "e.py.bak", "f"]
+            "src/tests", ".venv", "a[1]", "pkg/__test__", ".tox", ".nox", ".eggs", ".mypy_cache", ".pytest_cache", ".hypothesis"]
+NAME_POOL = ["a.py", "b.py", "conftest.py", "m.txt", "x[1].py", ".coveragerc", "n.pyi", "c.PY", "d.py", ".py", "e.py.bak", "f",
+             ".coverage_x.py"]
+DEP_CODEMOD = "pixee:python/use-defusedxml"           # adds the dependency defusedxml to the project's manifest
+DEP_TRIGGER = 'from xml.etree.ElementTree import parse\npad = 0\nx = parse("f.xml")\n'   # line 2 carries no trigger (cf. `a.py:2`)
+MANIFEST_NAMES = ["pyproject.toml", "setup.py", "requirements.txt", "setup.cfg"]
+
+
+def witness_paths(pattern):
+    """Paths (ending in .py, so that the default includes select them) that the given default-list pattern matches."""
+    base = pattern.split(":")[0]
+    out = []
+    for fill in ("w", "w/v"):
+        p = base.replace("**", fill).replace("*", "w").replace("?", "w")
+        for cand in (p, p + ".py", p + "/w.py"):
+            if cand.endswith(".py") and impl_fnmatch(cand, base) and "//" not in cand and not cand.startswith("/"):
+                out.append(cand)
+    return sorted(set(out))[:3]
 PATH_PATTERNS = ["*.py", "**/*.py", "**.py", "sub/*", "sub/**", "tests/**", "a.py", "*/b.py", "sub/[!b]*", "*.txt", "**",
                  "*/x[[]1].py", "?.py", "[a-c].py", "src/**/d.py", "*", "sub/deep/*", "**/site-packages/**", "a[1]/*",
                  "a[[]1]/*", "*.p[!y]*", "[!.]*", ".*", "*/", "", "build/**", "*conftest*"]
@@ -162,6 +180,10 @@ def impl_match_files(rels, exc, inc):
         warnings.simplefilter("ignore")
         out = match_files(parent, [parent / r for r in rels], exc, inc)
     return [str(p.relative_to(parent)) for p in out]
+
+
+def file_level(pats):
+    return [p for p in pats if ":" not in p]
 
 
 def py_selected(inc, exc, f):
@@ -248,6 +270,17 @@ def run_pure(ctx):
 
     # --- match_files
     mf_inputs = [(c["rels"], c["exclude"], c["include"]) for c in load_corpus("match_files.json")]
+    cur_inc = (ctx.tables or {}).get("default_included_paths") or PINNED_INCLUDED
+    cur_exc = (ctx.tables or {}).get("default_excluded_paths") or PINNED_EXCLUDED
+    wit = []
+    for pat in dict.fromkeys(PINNED_EXCLUDED + list(cur_exc) + PINNED_INCLUDED + list(cur_inc)):
+        w = witness_paths(pat)
+        ctx.count("default_pattern_witnesses:" + ("some" if w else "none"))
+        wit.extend(w)
+    wit = sorted(set(wit)) + ["src/plain.py", "plain.txt"]
+    mf_inputs.append((wit, None, None))
+    mf_inputs.append((wit, [], None))
+    mf_inputs.append((wit, None, ["*"]))
     for _ in range(n_mf):
         rels = gen_rels(rng)
         exc = None if rng.random() < 0.2 else gen_patlist(rng)
@@ -340,7 +373,7 @@ def materialise(case_dir: Path, entries, content):
     files = {}
     for rel, (kind, target) in entries.items():
         if kind == FILE:
-            files[rel] = content
+            files[rel] = "flask\n" if rel.split("/")[-1] in MANIFEST_NAMES else content
         elif kind in (LINKFILE, LINKDIR):
             files[rel] = ("link", target.replace("@OUT@", str(outside)))
     for rel, (kind, _) in entries.items():
@@ -348,7 +381,7 @@ def materialise(case_dir: Path, entries, content):
             (proj / rel).mkdir(parents=True, exist_ok=True)
     proj.mkdir(parents=True, exist_ok=True)
     core.write_tree(proj, files)
-    core.write_tree(outside, {"o.py": content, "sub/p.py": content, "sub/q.txt": content})
+    core.write_tree(outside, {"o.py": content, "sub/p.py": content, "sub/q.txt": content, "requirements.txt": "requests==2.0\n"})
     return proj, outside
 
 
@@ -381,12 +414,39 @@ def run_one_cli(job):
             reported = sorted({cs["path"] for res in data.get("results", []) for cs in res.get("changeset", [])})
         except Exception:
             reported = None
+    snap_out2 = core.snapshot(outside)
     return {"rc": r["rc"], "stderr": r["stderr"][-600:], "changed": changed, "reported": reported, "args": args,
-            "outside_changed": core.snapshot(outside) != snap_out, "structure_changed": snap_proj != snap_proj2,
+            "outside_changed": snap_out2 != snap_out, "structure_changed": snap_proj != snap_proj2,
+            "outside_changed_files": sorted(k for k in set(snap_out) | set(snap_out2) if snap_out.get(k) != snap_out2.get(k)),
             "after": {k: after[k].decode(errors="replace") for k in changed if k in after}}
 
 
-def e2e_jobs(ctx, n_ff, n_sast):
+MANIFEST_PLACES = [("requirements.txt", FILE, None),                       # regular, at the root
+                   ("requirements.txt", LINKFILE, "../outside/requirements.txt"),   # symlink to a manifest outside the target
+                   ("venv/requirements.txt", FILE, None),                  # under a default-excluded directory
+                   ("sub/requirements.txt", FILE, None),
+                   ("lib/site-packages/pkg/requirements.txt", FILE, None),
+                   ("deps/requirements.txt", "LINKDIR", "../outside")]      # reachable only through a symlinked directory
+MANIFEST_EXCLUDES = [[], [], ["requirements.txt"], ["*.txt"], ["sub/**"], ["venv/**", "*.txt"], ["requirements.txt:1"], ["a.py:2"],
+                     ["**/requirements.txt", "requirements.txt"]]
+
+
+def gen_dep_job(rng):
+    entries = gen_tree(rng, small=True)
+    entries = {k: v for k, v in entries.items() if not (v[0] == FILE and not k.endswith(".py"))}    # sources only
+    for rel, kind, target in rng.sample(MANIFEST_PLACES, rng.randint(0, 2)):
+        if kind == "LINKDIR":
+            entries["deps"] = (LINKDIR, target)
+            continue
+        for p in parents_of(rel):
+            entries.setdefault(p, (DIR, None))
+        entries[rel] = (kind, target)
+    exc = list(rng.choice(MANIFEST_EXCLUDES))
+    inc = [] if rng.random() < 0.7 else rng.choice([["*.py"], ["a.py"], ["**"], ["*.py", "requirements.txt"]])
+    return {"mode": "dep", "entries": entries, "exc": exc, "inc": inc, "res": [], "relative": rng.random() < 0.2}
+
+
+def e2e_jobs(ctx, n_ff, n_sast, n_dep=0):
     rng = ctx.rng
     jobs = []
     corpus = load_corpus("e2e.json")
@@ -410,6 +470,8 @@ def e2e_jobs(ctx, n_ff, n_sast):
         exc = [p for p in gen_patlist(rng, with_lines=False, maxlen=1) if p]
         inc = [p for p in gen_patlist(rng, with_lines=False, maxlen=1) if p] if rng.random() < 0.5 else []
         jobs.append({"mode": "sast", "entries": entries, "exc": exc, "inc": inc, "res": sorted(set(res)), "relative": False})
+    for i in range(n_dep):
+        jobs.append(gen_dep_job(rng))
     return jobs
 
 
@@ -421,6 +483,9 @@ def prepare(ctx, jobs):
         if j["mode"] == "ff":
             j["content"] = FF_TRIGGER
             j["extra_args"] = ["--codemod-include", FF_CODEMOD]
+        elif j["mode"] == "dep":
+            j["content"] = DEP_TRIGGER
+            j["extra_args"] = ["--codemod-include", DEP_CODEMOD]
         else:
             j["content"] = SAST_TRIGGER
             issues = {"issues": [{"rule": "python:S6725", "status": "OPEN", "component": f"proj:{rel}", "key": f"k{n}", "message": "m",
@@ -430,6 +495,13 @@ def prepare(ctx, jobs):
             j["extra_args"] = ["--codemod-include", SAST_CODEMOD, "--sonar-issues-json", str(d / "issues.json")]
 
 
+def expected_sources(j):
+    """python mirror of the spec (messages only): the selected regular .py files; defaults unless a FILE-level exclude is given"""
+    inc2, exc2 = (j["inc"] or PINNED_INCLUDED), (file_level(j["exc"]) or PINNED_EXCLUDED)
+    return sorted(f for f, (k, _) in j["entries"].items() if k == FILE and Path(f).suffix == ".py" and py_selected(inc2, exc2, f)
+                  and f.split("/")[-1] not in MANIFEST_NAMES)
+
+
 def registry_default_includes():
     from codemodder.registry import load_registered_codemods
     return sorted(load_registered_codemods().default_include_paths)
@@ -437,7 +509,7 @@ def registry_default_includes():
 
 def judge_e2e(ctx, jobs, observations):
     regdef = registry_default_includes() if any(j["mode"] == "sast" for j in jobs) else []
-    ff, sast = [], []
+    ff, sast, dep = [], [], []
     for j, o in zip(jobs, observations):
         ctx.cli_runs += 1
         entries = j["entries"]
@@ -454,14 +526,28 @@ def judge_e2e(ctx, jobs, observations):
         replay = {"kind": "e2e", "mode": j["mode"], "entries": {k: list(v) for k, v in entries.items()}, "exclude": j["exc"],
                   "include": j["inc"], "results": j["res"], "relative": j["relative"], "observed_changed": o["changed"],
                   "observed_reported": o["reported"], "argv": [a.replace(j["case_dir"], "<case>") for a in o["args"]]}
+        if o["rc"] == -9:
+            # a run that did not finish says nothing about which files the patterns select: the observation is missing
+            ctx.mismatch("CLI run on a generated tree", "the run timed out; no observation", replay)
+            continue
         if o["rc"] != 0:
             ctx.violation("kf_c05_cli_failed", f"CLI exited {o['rc']} on a generated tree: {o['stderr'][-300:]}", replay)
             continue
+        link_manifests = [k for k, (kind, _) in entries.items() if kind == LINKFILE and k.split("/")[-1] in MANIFEST_NAMES]
+        through_link = bool(link_manifests) and o["outside_changed_files"] and \
+            all(f.split("/")[-1] in MANIFEST_NAMES for f in o["outside_changed_files"])
         if o["outside_changed"]:
-            ctx.violation("kf_c05_outside_written", "a file outside the target directory was modified (reached through a symlink)", replay)
+            replay["outside_changed_files"] = o["outside_changed_files"]
+            if through_link:
+                ctx.violation("kf_c05_manifest_written_through_symlink",
+                              f"the dependency manifest {o['outside_changed_files']} OUTSIDE the target directory was rewritten through the "
+                              f"symlink {link_manifests} inside it", replay)
+            else:
+                ctx.violation("kf_c05_outside_written", f"files outside the target directory were modified: {o['outside_changed_files']}", replay)
         if o["structure_changed"]:
             ctx.violation("kf_c05_structure_changed", "the run created/removed entries or replaced a link in the target tree", replay)
-        if o["reported"] is not None and o["reported"] != o["changed"]:
+        if o["reported"] is not None and o["reported"] != o["changed"] and \
+                not (through_link and set(o["reported"]) ^ set(o["changed"]) <= set(link_manifests)):
             ctx.violation("kf_c05_report_vs_disk", f"changeset paths {o['reported']} differ from the files changed on disk {o['changed']}", replay)
         regular = [k for k, (kind, _) in entries.items() if kind == FILE]
         nontrivial = (0 < len(o["changed"]) < len(regular)) or (kinds & {LINKFILE, LINKDIR})
@@ -469,22 +555,60 @@ def judge_e2e(ctx, jobs, observations):
                  if nontrivial else None, sample=bool(nontrivial) and len(ctx.samples) < 4)
         if j["mode"] == "ff":
             ff.append((j, o, replay, cpair(c_tree(entries), c_strs(j["exc"]), c_strs(j["inc"]), c_strs(o["changed"]))))
+        elif j["mode"] == "dep":
+            man = [f for f in o["changed"] if f.split("/")[-1] in MANIFEST_NAMES]
+            src = [f for f in o["changed"] if f not in man]
+            for m in [k for k, (kind, _) in entries.items() if k.split("/")[-1] in MANIFEST_NAMES]:
+                ctx.count("dep_manifest:" + ("symlink" if entries[m][0] == LINKFILE else "excluded" if not py_selected(["*"], file_level(j["exc"]) or PINNED_EXCLUDED, m) else "regular"))
+            if not any(k.split("/")[-1] in MANIFEST_NAMES for k in entries):
+                ctx.count("dep_manifest:none")
+            dep.append((j, o, replay, cpair(c_tree(entries), c_strs(j["exc"]), c_strs(j["inc"]), c_strs(src), c_strs(man)), src, man))
         else:
             sast.append((j, o, replay, cpair(c_tree(entries), c_strs(j["res"]), c_strs(regdef), c_strs(j["exc"]), c_strs(j["inc"]),
                                              c_strs(o["changed"]))))
     defs_inc, defs_exc = PINNED_INCLUDED, PINNED_EXCLUDED      # the spec oracle uses the defaults the property names
     if ff:
         bad = core.eval_bad_indices(ctx, "c05_e2e", IMPORTS, "e2e_case", [x[3] for x in ff], ["e2e_model_ok", "e2e_spec_ok"], chunk=100)
+        bad_raw = set(core.eval_bad_indices(ctx, "c05_e2e_raw", IMPORTS, "e2e_case", [x[3] for x in ff], ["e2e_raw_sentinel_ok"], chunk=100)
+                      ["e2e_raw_sentinel_ok"]) if bad["e2e_spec_ok"] else set()
         for i in sorted(set(bad["e2e_spec_ok"])):
             j, o, replay, _ = ff[i]
-            inc2, exc2 = (j["inc"] or defs_inc), (j["exc"] or defs_exc)
-            exp = sorted(f for f, (k, _) in j["entries"].items() if k == FILE and Path(f).suffix == ".py" and py_selected(inc2, exc2, f))
+            exp = expected_sources(j)
             replay["expected_changed"] = exp
-            ctx.violation("kf_c05_wrong_files_changed",
-                          f"find-and-fix run with include={j['inc']} exclude={j['exc']} changed {o['changed']}; the patterns select {exp}", replay)
+            if j["exc"] and not file_level(j["exc"]) and i not in bad_raw:
+                ctx.violation("kf_c05_line_only_exclude_drops_defaults",
+                              f"--path-exclude {j['exc']} holds only `path:line` patterns, which never act at file level, yet the default "
+                              f"excludes were switched off: changed {o['changed']}; the patterns select {exp}", replay)
+            else:
+                ctx.violation("kf_c05_wrong_files_changed",
+                              f"find-and-fix run with include={j['inc']} exclude={j['exc']} changed {o['changed']}; the patterns select {exp}", replay)
         for i in sorted(set(bad["e2e_model_ok"]) - set(bad["e2e_spec_ok"])):
             j, o, replay, _ = ff[i]
             ctx.mismatch("CLI find-and-fix selection vs Model.Glob.ff_files_to_analyze", f"changed {o['changed']} differs from the model", replay)
+    if dep:
+        bad = core.eval_bad_indices(ctx, "c05_dep", IMPORTS, "dep_case", [x[3] for x in dep], ["dep_model_ok", "dep_spec_ok"], chunk=100)
+        for i in sorted(set(bad["dep_spec_ok"])):
+            j, o, replay, _, src, man = dep[i]
+            exp = expected_sources(j)
+            replay["expected_changed"] = exp
+            for m in man:
+                if not py_selected(["*"], file_level(j["exc"]) or PINNED_EXCLUDED, m):
+                    ctx.violation("kf_c05_manifest_excluded_but_written",
+                                  f"the dependency manifest {m} matches a file-level exclude pattern in force "
+                                  f"({file_level(j['exc']) or 'the default excludes'}) and was rewritten all the same", replay)
+                else:
+                    ctx.violation("kf_c05_manifest_written_not_included",
+                                  f"the dependency manifest {m} was updated although it matches no include pattern in force "
+                                  f"({j['inc'] or 'the default: Python files'})", replay)
+            if src != exp:
+                cls = "kf_c05_line_only_exclude_drops_defaults" if (j["exc"] and not file_level(j["exc"])) else "kf_c05_wrong_files_changed"
+                ctx.violation(cls, f"dependency-adding run with include={j['inc']} exclude={j['exc']} changed the sources {src}; "
+                              f"the patterns select {exp}", replay)
+        for i in sorted(set(bad["dep_model_ok"])):
+            j, o, replay, _, src, man = dep[i]
+            ctx.mismatch("CLI dependency-adding run vs Model.Glob (sources + manifest_candidates)",
+                         f"exclude={j['exc']} include={j['inc']} tree={sorted(j['entries'])}: changed sources {src}, manifests {man}; "
+                         f"outside: {o['outside_changed_files']}", replay)
     if sast:
         bad = core.eval_bad_indices(ctx, "c05_sast", IMPORTS, "sast_case", [x[3] for x in sast], ["sast_model_ok", "sast_spec_ok"], chunk=100)
         for i in sorted(set(bad["sast_spec_ok"])):
@@ -502,10 +626,10 @@ def judge_e2e(ctx, jobs, observations):
 
 def run_e2e(ctx):
     quick = ctx.quick()
-    n_ff, n_sast = (96, 18) if quick else (420, 80)
+    n_ff, n_sast, n_dep = (80, 14, 26) if quick else (420, 80, 140)
     if getattr(ctx, "deep", False):
-        n_ff, n_sast = n_ff * 2, n_sast * 2
-    jobs = e2e_jobs(ctx, n_ff, n_sast)
+        n_ff, n_sast, n_dep = n_ff * 2, n_sast * 2, n_dep * 2
+    jobs = e2e_jobs(ctx, n_ff, n_sast, n_dep)
     if not quick:
         # exhaustive small scope: two fixed trees x all (include, exclude) lists of length <= 1 over a 12-pattern alphabet
         alpha = ["*.py", "**/*.py", "sub/*", "sub/**", "tests/**", "a.py", "*/b.py", "sub/[!b]*", "*.txt", "a.py:2", "*.py:2", "**"]
@@ -523,9 +647,12 @@ def run_e2e(ctx):
 def check_tables(ctx):
     t = ctx.tables or {}
     if t.get("default_included_paths") != PINNED_INCLUDED or t.get("default_excluded_paths") != PINNED_EXCLUDED:
-        ctx.notes.append("DEFAULT_INCLUDED_PATHS/DEFAULT_EXCLUDED_PATHS differ from the lists of the pinned tree: "
-                         "C05_default_lists_char is vacuous for the current source (its premises name the pinned lists); "
-                         "the model uses the current lists, the spec oracle the pinned ones (Spec/GlobDefaults.v)")
+        added = [p for p in (t.get("default_excluded_paths") or []) + (t.get("default_included_paths") or []) if p not in PINNED_EXCLUDED + PINNED_INCLUDED]
+        removed = [p for p in PINNED_EXCLUDED + PINNED_INCLUDED if p not in (t.get("default_excluded_paths") or []) + (t.get("default_included_paths") or [])]
+        ctx.mismatch("DEFAULT_INCLUDED_PATHS / DEFAULT_EXCLUDED_PATHS vs the lists the property names (Spec/GlobDefaults.v)",
+                     f"the default lists changed (added {added}, removed {removed}): C05_default_lists_char no longer speaks about the "
+                     "current source; witness paths for these patterns are in the match_files cases of this run",
+                     {"kind": "tables", "added": added, "removed": removed})
 
 
 def run(ctx: core.Ctx):
